@@ -667,9 +667,40 @@ def origins(fn, through_calls='wrappers', extra_wrappers=()):
     for a in range(1, fn.argc + 1):
         org[a].add((('arg', a),))
 
+    # field-sensitive tuples: local -> list of operand lists of the tuple aggregates assigned to it
+    tuple_defs = defaultdict(list)
+    other_defs = set()
+    ovf_locals = set()
+    for b in fn.blocks:
+        for s in b['s']:
+            d = s.get('d')
+            if not d or d.get('p'):
+                continue
+            r = s['r']
+            if r.get('rv') == 'agg' and r.get('tuple'):
+                tuple_defs[d['l']].append(r['ops'])
+            else:
+                other_defs.add(d['l'])
+            if r.get('rv') == 'bin' and 'WithOverflow' in r['op']:
+                ovf_locals.add(d['l'])
+        t = b['t']
+        if t['t'] == 'call' and not t['dst'].get('p'):
+            other_defs.add(t['dst']['l'])
+
     def place_paths(p):
-        base = org.get(p['l'])
         toks = proj_names(p)
+        ps = p.get('p', [])
+        if p['l'] in tuple_defs and p['l'] not in other_defs and ps and isinstance(ps[0], dict) and 'f' in ps[0]:
+            k = ps[0]['f']
+            out = set()
+            for ops in tuple_defs[p['l']]:
+                if k < len(ops):
+                    for q in operand_paths(ops[k]):
+                        out.add((q + toks[1:])[:MAXPATH])
+            return out
+        if p['l'] in ovf_locals and toks[:1] == ('0',):
+            toks = toks[1:]
+        base = org.get(p['l'])
         if not base:
             base = {(('local', p['l']),)}
         out = set()
@@ -718,6 +749,8 @@ def origins(fn, through_calls='wrappers', extra_wrappers=()):
                         new = {(q + ('in ' + r['v'],))[:MAXPATH] for q in new}
                 elif rv in ('bin',):
                     new = operand_paths(r['a']) | operand_paths(r['b'])
+                    if r['op'] not in ('Eq', 'Ne', 'Lt', 'Le', 'Gt', 'Ge'):
+                        new = {(q + ('#bin',))[:MAXPATH] if q[-1:] != ('#bin',) else q for q in new}
                 elif rv == 'un':
                     new = operand_paths(r['a'])
                 elif rv == 'discr':
